@@ -35,3 +35,7 @@ chk("C03","model_checking",
  "for every history of the stated set and every named step boundary (gate) of the rotation under test - 11 flush-worker gates and 6 gates inside the zone writer - the flush task is held there on the real engine while a second client stores 2*capacity more events (queueing further rotations) and runs the read suite after every STORE with no barrier; thorough adds a second deviation (the rotation queued behind is held at each of its gates after the first was released): all schedules with <= D deviations are executed and every read is judged against the reference set of acknowledged events",
  "switch points are the named gates; inside a step tokio's order is followed (a read racing with the un-gated interior of a step is outside the explored space); listed defects are matched by predictors over the gate log",
  "exhaustive deviation-bounded schedule enumeration of the real implementation under a gate-controlled scheduler","schedx","DESIGN.md §2.7 §3 C03")
+chk("C11","model_checking",
+ "a monitor on every file-system mutation (libc interposition) holds the published set (live list U segments.idx) and the all-time id set and evaluates the immutability / fresh-id / atomic-index rules at every mutation of every lifetime of exhaustive short histories; every crash snapshot is checked statically and its recovery run is monitored and compared, segment by segment, with what the uninterrupted run published",
+ "FS calls observed through interposed libc symbols (self-test at setup); mmap writes would be counted; bounded histories",
+ "runtime monitor over exhaustively enumerated histories and crash points of the real implementation","fsmon+histx+crashx","DESIGN.md §2.8 §3 C11")
